@@ -35,6 +35,7 @@ ASSUMPTIONS = [
 ]
 
 VALS = [-2.0, -1.0, -0.5, -0.1, -0.01, 0.0, 0.01, 0.05, 0.1, 0.5, 1.0, 2.0]
+NEAR = [1e-5, 2e-5, 6e-5, -1e-5, -3e-5, 0.011, 0.02, 0.05, 0.09, 0.11, 0.15, 0.2, -0.011, -0.02, -0.09, -0.11, -0.15]
 
 
 def _val():
@@ -63,6 +64,7 @@ def histories(draw, multi_objective: bool = False):
     obj_dim = draw(st.integers(2, 3)) if multi_objective else 1
     tol = st.sampled_from([0.0, 0.01, 0.1, 1e-6])
     n_pts = draw(st.integers(1, 10))
+    near = draw(st.integers(0, 3)) == 0  # a quarter of the histories: only nearly feasible points
     xs = draw(st.lists(st.lists(st.integers(-3, 3), min_size=n_x, max_size=n_x), min_size=n_pts, max_size=n_pts, unique_by=tuple))
     points = []
     for x in xs:
@@ -72,9 +74,14 @@ def histories(draw, multi_objective: bool = False):
         if full and f is None:
             f = draw(_entry(obj_dim, allow_scalar=not multi_objective))
         c = []
-        feasible_intent = draw(st.booleans())  # half of the points are feasible by construction
+        feasible_intent = draw(st.booleans()) and not near  # half of the points are feasible by construction
         for con in cons:
-            if feasible_intent:
+            if near:
+                # violations of the order of the tolerances, or nearly equal tiny ones: the ranking of the infeasible
+                # points depends on which tolerance is applied to which constraint type and on exact comparisons
+                e = {"kind": draw(st.sampled_from(["float", "arr"])) if con["dim"] == 1 else "arr",
+                     "v": draw(st.lists(st.sampled_from(NEAR), min_size=con["dim"], max_size=con["dim"]))}
+            elif feasible_intent:
                 pool = [0.0] if con["type"] == "eq" else [-2.0, -1.0, -0.5, -0.1, -0.01, 0.0]
                 e = {"kind": draw(st.sampled_from(["float", "arr"])) if con["dim"] == 1 else "arr",
                      "v": draw(st.lists(st.sampled_from(pool), min_size=con["dim"], max_size=con["dim"]))}
